@@ -172,11 +172,26 @@ func VerifC19Reconnect() {
 		sgetty.GetGettyClientHandlerInstance().OnClose(old)
 		old.closed = true
 		s := w.open([]string{"s2", "s3"}[l])
-		w.serve()
+		last := l == losses-1
+		// a connection that is lost again may go before the coordinator answered the announcements on it
+		answered := last || vrt.Bool("coordinator.answers.before.next.loss")
+		if answered {
+			w.serve()
+		} else {
+			vrt.Reach("c19/lost-again-while-announcing")
+		}
 		vrt.Reach("c19/reconnected")
 		vrt.Assert(sgetty.VerifSessionCount() == 1, "c19/only-the-new-session-is-registered")
 		vrt.Assert(c19rCount(s, func(b interface{}) bool { _, ok := b.(message.RegisterTMRequest); return ok }) == 1, "c19/reconnect-announces-the-tm")
-		vrt.Assert(c19rCount(s, isRM("actionA")) >= 1 && c19rCount(s, isRM("actionB")) >= 1, "c19/reconnect-announces-every-registered-resource")
+		if last {
+			// announcements are sent one after the other, each waiting for its answer (or its timeout)
+			for k := 0; k < 3; k++ {
+				time.Sleep(21 * time.Second / c19rScale)
+				vrt.Settle()
+				w.serve()
+			}
+			vrt.Assert(c19rCount(s, isRM("actionA")) >= 1 && c19rCount(s, isRM("actionB")) >= 1, "c19/reconnect-announces-every-registered-resource")
+		}
 		if inFlight {
 			time.Sleep(21 * time.Second / c19rScale)
 			vrt.Settle()
